@@ -14,6 +14,19 @@ from fractions import Fraction as F
 from common import frac_str, parse_frac
 
 DOMAINS = [(F(0), F(1)), (F(-1), F(1)), (F(0), F(2)), (F(1, 2), F(1)), (F(-3), F(6)), (F(1, 2), F(2)), (F(2), F(5, 2)), (F(-2), F(-1))]
+# boxes far from the origin relative to their width (|a|/(b-a) between 1e2 and 2e4, both signs), dyadic ends
+FAR_DOMAINS = [(F(1000), F(1001)), (F(-2001), F(-2000)), (F(256), F(258)), (F(-4096), F(-8191, 2)), (F(500), F(504)),
+               (F(8192), F(8193)), (F(-1024), F(-1023)), (F(3000), F(3000) + F(1, 4)), (F(-640), F(-636))]
+
+
+def pick_domain(rng, pfar=0.15):
+    return rng.choice(FAR_DOMAINS) if rng.random() < pfar else rng.choice(DOMAINS)
+
+
+def is_far(a, b):
+    return max(abs(a), abs(b)) >= 64 * (b - a)
+
+
 RATIOS = [F(1, 3), F(1, 4), F(2, 5), F(3, 5), F(2, 3), F(3, 4), F(3, 7), F(1, 2)]
 TOL = 1e-9          # float comparisons (DEV.md); dyadic inputs with power-of-two widths are compared exactly
 TOL_HIER = 1e-9     # hierarchical / moment-matching families: an n x n solve sits between input and output
@@ -138,9 +151,10 @@ def make_functions():
             return r
 
     class Mono(Function):
-        def __init__(self, ks):
+        def __init__(self, ks, shifts=None):
             super().__init__()
             self.ks = ks
+            self.shifts = shifts if shifts is not None else [0.0] * len(ks)     # (x - shift)^k: keeps the test sensitive far from 0
 
         def output_length(self):
             return 1
@@ -148,7 +162,7 @@ def make_functions():
         def eval(self, c):
             r = 1.0
             for d, k in enumerate(self.ks):
-                r *= float(c[d]) ** k
+                r *= (float(c[d]) - self.shifts[d]) ** k
             return r
 
     return Table, Mono
@@ -176,6 +190,11 @@ def run_trap(ctx, drv, case, grid=None, report=None):
     n = len(pts)
     ok = True
     tags = {"family": "trapezoid", "boundary": bd, "modified": md, "n": n}
+    # the coded 4-point formula (b**2/2 - b*x1 - a**2/2 + a*x1)/(x2 - x1) cancels terms of size a^2: its doubles carry an
+    # absolute rounding error of about eps*(a^2+b^2)/(x2-x1) (1e-8 at |a|/(b-a) = 1e4) -- rounding, not logic; exact for dyadic points
+    canc = 0.0
+    if md and n == 4 and ptsq[2] != ptsq[1]:
+        canc = 4e-16 * (float(a * a + b * b) + 2 * abs(float(ptsq[1])) * (abs(float(a)) + abs(float(b)))) / abs(float(ptsq[2] - ptsq[1]))
     if grid is not None:
         tags["reused_object"] = True
 
@@ -228,7 +247,7 @@ def run_trap(ctx, drv, case, grid=None, report=None):
         for k in range(len(iw)):
             if F(iw[k]) != mw[k]:
                 exact_ok = False
-                if not close(iw[k], mw[k], TOL, scale):
+                if not close(iw[k], mw[k], TOL, scale) and abs(iw[k] - float(mw[k])) > canc:
                     corr("weights", iw, [str(x) for x in mw])
                     break
     ctx.count("weights_exact" if exact_ok else "weights_rounded")
@@ -237,7 +256,7 @@ def run_trap(ctx, drv, case, grid=None, report=None):
         raw = [float(x) for x in GlobalTrapezoidalGrid.compute_weights(list(ptsf), float(a), float(b), md)]
         raw2 = [float(x) for x in g.compute_1D_quad_weights(list(ptsf), float(a), float(b), 0, grid_levels_1D=[7] * n)]
         rawm = parse_list(drv.ask("cw %d %s %s %s" % (md, frac_str(a), frac_str(b), fvec(ptsq))))
-        if len(raw) != len(rawm) or any(not close(raw[k], rawm[k], TOL, float(b - a)) for k in range(len(raw))):
+        if len(raw) != len(rawm) or any(not close(raw[k], rawm[k], TOL, float(b - a)) and abs(raw[k] - float(rawm[k])) > canc for k in range(len(raw))):
             corr("compute_weights", raw, [str(x) for x in rawm])
         if raw != raw2:
             ok = False
@@ -267,6 +286,9 @@ def run_trap(ctx, drv, case, grid=None, report=None):
         spec = pl_extrap(ptsq, vals)
     vscale = float(b - a) * max([1.0] + [abs(float(v)) for v in vals])
     terms = sum((abs(w * v) for w, v in zip(W, vals)), F(0))
+    if canc:
+        terms = float(terms) + 1e11 * canc * sum(abs(float(v)) for v in vals)       # `close` multiplies terms by 1e-11
+        ctx.count("mod4_formula_cancellation_%s" % ("far" if is_far(a, b) else "near"))
     if md and not spans:
         # the modified weights are built from the domain ends a, b: the clause speaks of grids that start at a and end at b
         ctx.count("malformed_modified_grid_not_spanning_domain")
@@ -304,7 +326,7 @@ def run_trap(ctx, drv, case, grid=None, report=None):
         for k in (0, 1):
             m = sum((w * c ** k for w, c in zip(W, coords)), F(0))
             mscale = float(b - a) * max(1.0, abs(float(a)), abs(float(b))) ** k
-            mterms = sum((abs(w * c ** k) for w, c in zip(W, coords)), F(0))
+            mterms = float(sum((abs(w * c ** k) for w, c in zip(W, coords)), F(0))) + 1e11 * canc * sum(abs(float(c)) ** k for c in coords)
             if not close(m, moment(ptsq[0], ptsq[-1], k), TOL, mscale, mterms):
                 ok = False
                 ctx.violation("trap-linear-exact", dict(tags, degree=k), rc, {"moment": float(m), "exact": float(moment(ptsq[0], ptsq[-1], k))})
@@ -493,14 +515,16 @@ def run_family(ctx, case, grid=None, report=None):
         for k in range(maxdeg + 1):
             monos = [[k]] if dim == 1 else ([[k, 0], [k, 1]] if k <= 1 else [])
             for ks in monos:
-                iv = scalar(g.integrate(Mono(ks), levelvec, af, bf))
+                far = any(is_far(a[d], b[d]) for d in range(dim))
+                sh = [a[d] if far else F(0) for d in range(dim)]      # exactness for degree <= p is translation invariant
+                iv = scalar(g.integrate(Mono(ks, [float(x) for x in sh]), levelvec, af, bf))
                 ex = F(1)
                 for d in range(dim):
-                    ex *= moment(a[d], b[d], ks[d])
+                    ex *= moment(a[d] - sh[d], b[d] - sh[d], ks[d])
                 vol = 1.0
                 for d in range(dim):
                     vol *= float(b[d] - a[d])
-                sc = vol * max(1.0, *[abs(x) for x in af + bf]) ** sum(ks)
+                sc = vol * max(1.0, *[abs(float(x - sh[d])) for d in range(dim) for x in (a[d], b[d])]) ** sum(ks)
                 rel = abs(iv - float(ex)) / max(1.0, abs(float(ex)), sc)
                 key = "max_rel_err_%s%s" % (fam, "_weighted" if weighted else "")
                 if rel <= tolh and rel > ctx.extra.get(key, 0.0):
@@ -551,7 +575,7 @@ def run_family(ctx, case, grid=None, report=None):
 
 # ------------------------------------------------------------------------------------------------ case generation
 def case_dim(rng, n, weighted, grade, maxdepth, dom=None):
-    a, b = dom if dom else rng.choice(DOMAINS)
+    a, b = dom if dom else pick_domain(rng)
     pts, lv = gen_tree(rng, a, b, n, weighted, grade, maxdepth)
     return {"a": frac_str(a), "b": frac_str(b), "pts": [frac_str(x) for x in pts], "levels": lv}
 
@@ -623,7 +647,7 @@ def gen_family_case(rng, thorough):
     fam, p, bd, md = rng.choice(FAMILY_CONFIGS)
     weighted = rng.random() < 0.3
     if fam == "highorder" and bd and rng.random() < 0.3:
-        dom = rng.choice(DOMAINS)
+        dom = pick_domain(rng)
         L = rng.randint(1, 5)
         n0 = 2 ** L + 1
         lv = [0] * n0
@@ -644,7 +668,7 @@ def gen_family_case(rng, thorough):
             L = rng.choice([1, 2, 2, 3, 3, 4] if dim == 1 else [1, 2, 2])
             if high and dim == 1:
                 L = bspline_required_level(p)          # 3 for p = 7, 4 for p = 9: the order clause applies
-            dom = rng.choice(DOMAINS)
+            dom = pick_domain(rng)
             n0 = 2 ** L + 1
             pts = [dom[0] + (dom[1] - dom[0]) * F(i, n0 - 1) for i in range(n0)]
             lv = [0] * n0
@@ -669,9 +693,14 @@ def gen_family_case(rng, thorough):
             dims.append({"a": frac_str(dom[0]), "b": frac_str(dom[1]), "pts": [frac_str(x) for x, _ in pl], "levels": [l for _, l in pl]})
         else:
             n = rng.randint(3, 24 if dim == 1 else 6)
+            dom = pick_domain(rng)
+            grade, maxdepth = rng.choice([0.0, 0.3, 0.7]), 9
+            if is_far(dom[0], dom[1]) and dim == 1:
+                # far from the origin: strongly graded trees of depth 7-10 (the spacing falls below |x| * 1e-5)
+                n, grade, maxdepth = rng.randint(9, 20), rng.choice([0.9, 0.97]), 10
             if fam == "bspline" and p >= 5:
                 n = min(n, 16)
-            dims.append(case_dim(rng, n, weighted, rng.choice([0.0, 0.3, 0.7]), 9))
+            dims.append(case_dim(rng, n, weighted, grade, maxdepth, dom=dom))
     case = {"kind": "family", "family": fam, "p": p, "boundary": bd, "modified": md, "weighted": int(weighted), "dims": dims}
     if fam == "highorder":
         case["do_nnls"], case["split_up"] = int(rng.random() < 0.4), int(rng.random() < 0.7)
@@ -752,7 +781,7 @@ def gen_history_equal_size(rng, thorough):
     shapes (graded towards a, towards b, other split weights), then the first tree again -- whatever the object or its
     hierarchisation remembers per point count / per dimension must not leak from one tree into the next"""
     fam, p = rng.choice([("lagrange", 1), ("lagrange", 2), ("lagrange", 3), ("bspline", 1), ("bspline", 3), ("highorder", 0)])
-    dom = rng.choice(DOMAINS)
+    dom = pick_domain(rng)
     n = rng.randint(15, 33 if fam != "bspline" else 25)
     sides = ["L", "R", "M"]
     rng.shuffle(sides)
@@ -781,7 +810,7 @@ def gen_history(rng, thorough):
         fam, p, bd, md = rng.choice([("highorder", 0, 1, 0), ("lagrange", 1, 1, 0), ("lagrange", 2, 1, 0), ("lagrange", 3, 1, 0),
                                      ("bspline", 1, 1, 0), ("bspline", 3, 1, 0)])
     dim = 2 if (fam == "trapezoid" and rng.random() < 0.2) else 1
-    dom = rng.choice(DOMAINS)
+    dom = pick_domain(rng)
     nmax = 14 if fam == "trapezoid" else 9
     steps = []
     order = gen_order(rng, rng.randint(3, nmax), rng.choice([0.0, 0.5, 0.9]), 9)
@@ -850,16 +879,20 @@ def run_history(ctx, drv, case):
 
 def gen_trap2d(rng):
     bd, md = rng.choice([(1, 0), (0, 0), (0, 1)])
-    if rng.random() < 0.4:
+    dom = pick_domain(rng)
+    farmod = bool(md) and is_far(dom[0], dom[1])     # modified 4-point formula far from 0: dyadic points only (exact doubles)
+    if rng.random() < 0.4 and not farmod:
         # both dimensions on the same interval with the same level labels (shared split order) but different points
-        dom = rng.choice(DOMAINS)
         order = gen_order(rng, rng.randint(3, 7), 0.5, 10)
         dims = []
         for _ in range(2):
             pts, lv = build_from_order(rng, dom[0], dom[1], order, weighted=True)
             dims.append({"a": frac_str(dom[0]), "b": frac_str(dom[1]), "pts": [frac_str(x) for x in pts], "levels": lv})
         return {"kind": "trap2d", "boundary": bd, "modified": md, "dims": dims, "shared_shape": 1}
-    dims = [case_dim(rng, rng.randint(3, 7), rng.random() < 0.3, 0.5, 10) for _ in range(2)]
+    dims = [case_dim(rng, rng.randint(3, 7), rng.random() < 0.3 and not farmod, 0.5, 10, dom=(dom if k == 0 or farmod else None)) for k in range(2)]
+    if md:
+        dims = [d if not is_far(F(d["a"]), F(d["b"])) or all(F(x).denominator & (F(x).denominator - 1) == 0 for x in d["pts"])
+                else case_dim(rng, len(d["pts"]), False, 0.5, 10, dom=(F(d["a"]), F(d["b"]))) for d in dims]
     return {"kind": "trap2d", "boundary": bd, "modified": md, "dims": dims}
 
 
